@@ -16,7 +16,10 @@ from dataclasses import dataclass, field
 from typing import Any, Callable, Dict, List, Optional
 
 VERIF = os.path.dirname(os.path.dirname(os.path.abspath(__file__)))
-REPO = "/repo"
+REPO = os.environ.get("VERIF_REPO", "/repo").rstrip("/")   # VERIF_REPO: evaluate a scratch worktree instead of /repo (seed screening only)
+
+# evidence / replays of a screening run against a scratch worktree must not overwrite the real ones
+OUT = VERIF if "VERIF_REPO" not in os.environ else os.path.join("/tmp/vf_screen", os.path.basename(REPO))
 
 EXIT_OK, EXIT_VIOLATION, EXIT_HARNESS = 0, 1, 2
 
@@ -294,7 +297,7 @@ def _fold(prop, tier, seed, mod, lemmas, results, wall):
     harness_errors = []
     lemma_evidence = []
     known_all = {(_witness(e), e["key"]): e for e in findings_for(prop)}
-    rep_dir = os.path.join(VERIF, "replays", prop)
+    rep_dir = os.path.join(OUT, "replays", prop)
     if os.path.isdir(rep_dir):
         for fn in os.listdir(rep_dir):
             os.unlink(os.path.join(rep_dir, fn))
@@ -413,8 +416,8 @@ def _fold(prop, tier, seed, mod, lemmas, results, wall):
         "wall_s": round(wall, 2),
         "violations": violations,
     }
-    os.makedirs(os.path.join(VERIF, "evidence"), exist_ok=True)
-    with open(os.path.join(VERIF, "evidence", prop + ".json"), "w") as f:
+    os.makedirs(os.path.join(OUT, "evidence"), exist_ok=True)
+    with open(os.path.join(OUT, "evidence", prop + ".json"), "w") as f:
         json.dump(evidence, f, indent=1, default=repr)
     # ---- report
     for ev in lemma_evidence:
